@@ -153,17 +153,18 @@ def rows_of(h, nodes):
 
 
 def guard_events():
-    """Counters of the HGX_VERIF hook (None when the tree has no hook)."""
+    """(counters, ordered log) of the HGX_VERIF hook; (None, None) when the tree has no hook."""
     import importlib
     m = importlib.import_module(MT)
-    ev = getattr(m, "GUARD_EVENTS", None)
-    return ev
+    return getattr(m, "GUARD_EVENTS", None), getattr(m, "GUARD_LOG", None)
 
 
 def reset_guard_events():
-    ev = guard_events()
+    ev, log = guard_events()
     if ev is not None:
         ev.clear()
+    if log is not None:
+        del log[:]
 
 
 def run_mt(case, h):
@@ -181,8 +182,8 @@ def run_mt(case, h):
     with threadpoolctl.threadpool_limits(limits=1):
         u, w, maxL = model.fit(h, K=case["K"], seed=case["seed"],
                                normalizeU=case["normalizeU"], baseline_r0=case["baseline_r0"])
-    ev = guard_events()
-    ev = dict(ev) if ev is not None else None
+    ev, log = guard_events()
+    ev = Events(dict(ev), list(log)) if ev is not None and log is not None else None
     return model, u, w, maxL, ev
 
 
@@ -282,16 +283,61 @@ def definition_interval(u, w, rows, edges, D):
 # --------------------------------------------------------------------------
 # guard policy
 
-# call sites of the numerical guards counted by the hook
-GUARD_KEYS = ("psiBarOmega_zeroed", "psiBarOmega_negative_skip", "psiOmega_zeroed",
-              "psiOmega_flipped", "u_clipped_max", "u_truncated_min", "u_nan",
-              "u_negative_flipped", "loglik_nan")
+# Call sites counted by the hook.  PRECISION_LOSS: a subtractive update of the incrementally
+# maintained elementary symmetric polynomials produced a NEGATIVE number, i.e. the entry has
+# lost all relative accuracy (the true value is >= 0); the guard then zeroes / flips it or
+# skips the node.  From that point of the realisation on psiOmega is no longer e_d(u) to
+# rounding, which is the known finding "psi-cancellation" (see the final report): comparisons
+# after the first such event are excluded by construction and counted, everything before it is
+# demanded at the stated tolerances.  The other events are parameterised projections of u
+# (min_value_par / max_value_par) and do not excuse anything.
+PRECISION_LOSS = ("psiBarOmega_zeroed", "psiBarOmega_negative_skip", "psiOmega_zeroed",
+                  "psiOmega_flipped")
+OTHER_EVENTS = ("u_clipped_max", "u_truncated_min", "u_nan", "u_negative_flipped", "loglik_nan")
+MARK_REAL, MARK_LL = "realization_started", "loglik_evaluated"
 
 
-def guard_total(ev):
-    if ev is None:
+class Events:
+    """Guard events of one fit, attributed to (realisation, iteration)."""
+
+    def __init__(self, counts, log):
+        self.counts = counts
+        self.per_real = []  # per realisation: list (per likelihood evaluation) of event lists
+        cur = None
+        for name in log:
+            if name == MARK_REAL:
+                self.per_real.append([[]])
+                cur = self.per_real[-1]
+            elif cur is None:
+                continue
+            elif name == MARK_LL:
+                cur.append([])
+            else:
+                cur[-1].append(name)
+        # the trailing (empty) segment after the last evaluation is dropped
+        for segs in self.per_real:
+            if segs and not segs[-1]:
+                segs.pop()
+
+    def first_loss(self, r):
+        """Index of the first iteration of realisation r during (or before) which a
+        precision-loss guard fired; None when the whole realisation is clean."""
+        for t, seg in enumerate(self.per_real[r]):
+            if any(e in PRECISION_LOSS for e in seg):
+                return t
         return None
-    return sum(int(ev.get(k, 0)) for k in GUARD_KEYS)
+
+    def summary(self):
+        return {k: v for k, v in sorted(self.counts.items()) if k not in (MARK_REAL, MARK_LL)}
+
+
+def label_events(ev, ctx):
+    if ev is None:
+        ctx.label("no_hook")
+        return
+    for k in PRECISION_LOSS + OTHER_EVENTS:
+        if ev.counts.get(k):
+            ctx.label("event:" + k)
 
 
 # --------------------------------------------------------------------------
@@ -336,7 +382,8 @@ def check_validity(case, ctx):
                 require(abs(s - 1.0) <= tol,
                         lambda: "normalizeU=True: row of node %r sums to %r (|1-sum| > %g): %r"
                         % (n, s, tol, row.tolist()), key="row-sum")
-    ctx.trace = {"guard_events": ev, "maxL": float(maxL)}
+    label_events(ev, ctx)
+    ctx.trace = {"guard_events": ev.summary() if ev else None, "maxL": float(maxL)}
     ctx.nontrivial(D >= 3 and len(nodes) > len(covered))
 
 
@@ -368,26 +415,48 @@ def check_ascent(case, ctx):
     h = build(case)
     model, u, w, maxL, ev = run_mt(case, h)
     rs = realisations(model, case)
-    gt = guard_total(ev)
-    if gt:
-        ctx.label("guard_event_in_run")
-        for k in GUARD_KEYS:
-            if ev.get(k):
-                ctx.label("guard:" + k)
-    strict = 0
+    label_events(ev, ctx)
+    if ev is not None:
+        require(len(ev.per_real) == case["n_real"]
+                and all(len(ev.per_real[r]) == len(rs[r]) for r in rs),
+                lambda: "hook log lists %r likelihood evaluations per realisation, train_info %r"
+                % ([len(x) for x in ev.per_real], [len(rs[r]) for r in sorted(rs)]),
+                key="hook-log")
+    strict = demanded = skipped = 0
+    hidden = []
     for r, rows in sorted(rs.items()):
+        first_bad = ev.first_loss(r) if ev is not None else None
         for (i0, a), (i1, b) in zip(rows, rows[1:]):
             slack = 1e-9 * (1.0 + abs(a))
+            ok = b >= a - slack
+            if first_bad is not None and i1 >= first_bad:
+                skipped += 1
+                if not ok:
+                    hidden.append([r, i0, a, b])
+                continue
+            demanded += 1
             if b > a + slack:
                 strict += 1
-            if not (b >= a - slack):
-                msg = ("log-likelihood decreases in realisation %d from iteration %d to %d: "
-                       "%r -> %r (drop %.3g > slack %.3g); normalizeU=%s min_value_par=%g "
-                       "baseline_r0=%s; guard events %r"
-                       % (r, i0, i1, a, b, a - b, slack, case["normalizeU"],
-                          case["min_value_par"], case["baseline_r0"], ev))
-                raise Violation(msg, key="descent" if not gt else "descent-with-guard")
-    ctx.trace = {"guard_events": ev, "strict_increases": strict}
+            if not ok:
+                seg = ev.per_real[r][i1] if ev is not None else None
+                raise Violation(
+                    "log-likelihood decreases in realisation %d from iteration %d to %d: "
+                    "%r -> %r (drop %.3g > slack %.3g) with no precision-loss guard event up to "
+                    "that iteration (events during it: %r); normalizeU=%s min_value_par=%g "
+                    "baseline_r0=%s; all events %r"
+                    % (r, i0, i1, a, b, a - b, slack, seg, case["normalizeU"],
+                       case["min_value_par"], case["baseline_r0"],
+                       ev.summary() if ev else None), key="descent")
+    if skipped:
+        ctx.exclude("likelihood comparisons after the first precision-loss guard event of a "
+                    "realisation (known finding psi-cancellation)")
+        ctx.label("comparisons_excluded")
+    if hidden:
+        ctx.label("known:descent_after_precision_loss")
+    if demanded:
+        ctx.label("comparisons_demanded")
+    ctx.trace = {"guard_events": ev.summary() if ev else None, "strict_increases": strict,
+                 "demanded": demanded, "excluded": skipped, "descents_in_excluded_part": hidden}
     ctx.nontrivial(strict >= 5 and D >= 3)
     if strict >= 5:
         ctx.label("five_strict_increases")
@@ -413,24 +482,32 @@ def check_definition(case, ctx):
     lo, hi = min(lp0, lp1) - nm, max(lp0, lp1) - nm
     tol = 1e-8 * (1.0 + max(abs(lp0), abs(lp1)) + abs(nm))
     L = float(maxL)
-    gt = guard_total(ev)
-    if gt:
-        ctx.label("guard_event_in_run")
-        for k in GUARD_KEYS:
-            if ev.get(k):
-                ctx.label("guard:" + k)
+    label_events(ev, ctx)
+    rs = realisations(model, case)
+    finals = [rs[r][-1][1] for r in sorted(rs)]
+    best = finals.index(max(finals))  # fit keeps the first realisation reaching the maximum
+    lossy = ev is not None and ev.first_loss(best) is not None
+    agree = lo - tol <= L <= hi + tol
     ctx.trace = {"maxL": L, "definition": [lo, hi], "log_part": [lp0, lp1], "norm_part": nm,
-                 "guard_events": ev}
-    if not (lo - tol <= L <= hi + tol):
+                 "best_realisation": best, "guard_events": ev.summary() if ev else None}
+    if lossy:
+        ctx.exclude("a precision-loss guard event in the realisation whose parameters are "
+                    "returned (known finding psi-cancellation)")
+        ctx.label("excluded:precision_loss")
+        if not agree:
+            ctx.label("known:disagreement_after_precision_loss")
+        return
+    if not agree:
         d = L - (lo if L < lo else hi)
         raise Violation(
             "returned log-likelihood %r differs from the definition at the returned (u, w): "
             "definition in [%r, %r] (log part %r, normalisation part %r), difference %.3g "
             "(relative %.3g) > tolerance %.3g; n_real=%d max_iter=%d normalizeU=%s baseline_r0=%s; "
-            "guard events %r"
+            "no precision-loss guard event in the returned realisation %d; all events %r"
             % (L, lo, hi, lp0, nm, d, abs(d) / (1 + abs(lo)), tol, case["n_real"],
-               case["max_iter"], case["normalizeU"], case["baseline_r0"], ev),
-            key="definition" if not gt else "definition-with-guard")
+               case["max_iter"], case["normalizeU"], case["baseline_r0"], best,
+               ev.summary() if ev else None),
+            key="definition")
     ctx.nontrivial(D >= 3 and case["max_iter"] >= 5)
 
 
